@@ -180,6 +180,38 @@ func (e *Engine) registerThreads() {
 		s.cur = nil
 		return nil
 	}
+	// zzverif.Background(i, n): the i-th goroutine the code under test started runs (from where it is parked:
+	// its start, in this model once per harness) through n wake-ups from time.Sleep and is parked at the next one
+	in[rtPkg+".Background"] = func(r *Run, fr *Frame, cc *ssa.CallCommon, a []Value) Value {
+		i := int(r.concretise(a[0].(*Term), "background goroutine"))
+		n := int(r.concretise(a[1].(*Term), "wake-ups"))
+		if i >= len(r.background) {
+			endPath("engine", "Background(%d): the code under test started %d goroutines", i, len(r.background))
+		}
+		if r.background[i] == nil {
+			endPath("engine", "Background(%d) called twice (a parked goroutine cannot be resumed in this model)", i)
+		}
+		rc, bfr := r.background[i], r.bgFrames[i]
+		r.background[i] = nil
+		r.bgActive, r.bgBudget = true, n
+		depth := r.depth
+		func() {
+			defer func() {
+				if e := recover(); e != nil {
+					if _, ok := e.(bgParked); !ok {
+						panic(e)
+					}
+				}
+			}()
+			r.invoke(bfr, rc, lbl("background goroutine"))
+		}()
+		r.depth = depth
+		r.bgActive = false
+		return TupleV{}
+	}
+	in[rtPkg+".BackgroundCount"] = func(r *Run, fr *Frame, cc *ssa.CallCommon, a []Value) Value {
+		return BVi(int64(len(r.background)), 64)
+	}
 	// sync.Pool: Get hands back the most recently Put object (with whatever it still contains), else New()
 	in["(*sync.Pool).Get"] = func(r *Run, fr *Frame, cc *ssa.CallCommon, a []Value) Value {
 		p := a[0].(*PtrV)
@@ -345,3 +377,5 @@ func (e *Engine) registerSyncMisc() {
 		return TupleV{}
 	}
 }
+
+type bgParked struct{}
